@@ -1404,6 +1404,10 @@ void reb_simulation_rescale_var(struct reb_simulation* const r){
             if (r->integrator == REB_INTEGRATOR_WHFAST && r->ri_whfast.safe_mode == 0){
                 r->ri_whfast.recalculate_coordinates_this_timestep = 1;
             }
+            if (r->integrator == REB_INTEGRATOR_IAS15){
+                // The predictor and the compensated summation arrays still hold values of the old scale.
+                reb_integrator_ias15_reset(r);
+            }
         }
     }
 }
